@@ -40,3 +40,16 @@ package api
 //@ stable ClusterInfo.Nodes
 //@ stable maptype map[common_info.PodGroupID]*podgroup_info.PodGroupInfo
 //@ stable maptype map[string]*node_info.NodeInfo
+
+// ---- added by helper "sess": plugin callbacks dispatched by the framework.Session wrappers ----------------------
+// Abstract verdict of a registered callback (function value f) on its arguments + ASSUMED frame of plugin code
+// (framework.pluginFrame: no statement log / Operation cell is touched, no cache emission, no reverse closure runs,
+// Statement.ssn links stay). The verdict symbols name the callback's answer at the state of the call.
+//@ import framework "github.com/NVIDIA/KAI-scheduler/pkg/scheduler/framework"
+//@ declare predicateOK(f ref, task ref, job ref, node ref) bool
+//@ func type:PredicateFn
+//@   modifies *
+//@   ensures [assumed] (result == nil) == predicateOK(fn, arg0, arg1, arg2)
+//@   ensures [assumed] framework.pluginFrame()
+//@   note assumed: a registered predicate answers as a function of (task, job, node) at the state of the call and respects the plugin frame
+//@ end
